@@ -65,6 +65,13 @@ class Net:
             self.nextport += 1
             c = FakeSock(self, ("127.0.0.1", self.nextport), addr, client=True)
             s = FakeSock(self, addr, c.laddr, client=False)
+            if not isinstance(connect, tuple):
+                # a Unix domain socket: the connecting end has no name of its own, the accepted end's peer address is the empty string
+                c.family = s.family = getattr(socket, "AF_UNIX", socket.AF_INET)
+                c.laddr = ""
+                c.raddr = connect
+                s.laddr = connect
+                s.raddr = ""
             c.peer, s.peer = s, c
             c._timeout = None if (timeout is None or timeout <= 0) else timeout
             ls.backlog.append(s)
